@@ -623,6 +623,10 @@ fn dump(tcx: TyCtxt<'_>) {
                     let sp = body.span;
                     o.push(("body_span", cx.span_j(sp)));
                     o.push(("mir", cx.body(did, body)));
+                    let proms = tcx.promoted_mir(did);
+                    if !proms.is_empty() {
+                        o.push(("promoted", J::Arr(proms.iter().map(|pb| cx.body(did, pb)).collect())));
+                    }
                 }
                 fns.push(J::Obj(o));
             }
